@@ -16,6 +16,18 @@ CHECKS = {
  "C09": (TV, "A", "SMT set equality (exists-forall) between the rank encoding and the forest specification (z3)",
          "Same engine as C04 for active_edges_acyclic on loop-free multigraphs (parallel edges included), flags as variables or expressions.",
          "reference translator; spec library (|E| = n - #components); z3", "2/C09"),
+ "C05": (TV, "A", "SMT set equality (exists-forall) between the emitted program and the labeling specification (z3)",
+         "Same engine as C04 for division_connected: all labelings over 0..k-1, all forest/rank/root auxiliaries symbolic; graphs <= 5-6 vertices, grids h*w <= 6/9, k <= 3/4, roots lists, allow_empty_group, both encodings (config flag), list / IntArray1D / IntArray2D forms.",
+         "reference translator; spec library; z3; native operator layout", "2/C05"),
+ "C06": (TV, "A", "SMT set equality (exists-forall) between the emitted program and the cycle/path specification incl. the returned array (z3)",
+         "Same engine for active_edges_single_cycle / single_path: edge flags and the returned is_passed array are free variables, so 'true exactly at visited vertices' is decided too; multigraphs <= 5 vertices, frames <= 2x2 / 3x3 with a geometric specification independent of _from_grid_frame.",
+         "reference translator; spec library; z3; native operator layout", "2/C06"),
+ "C07": (TV, "A", "SMT set equality (exists-forall) between the emitted program and the partition / border specification (z3)",
+         "Same engine for division_connected_variable_groups (x = same-block relation + size variables; group ids auxiliary) and the _with_borders variant (x = border flags + size variables), all group_size forms, native GRAPH_DIVISION operator read per its docstring.",
+         "reference translator; spec library; z3; reading of GRAPH_DIVISION", "2/C07"),
+ "C10": (TV, "A", "SMT set equality (exists-forall) between the emitted program and a geometric strand specification (z3)",
+         "Same engine for active_edges_connected_crossable / single_cycle_crossable: all segments and both returned arrays free; specification written over the segment graph, never mentioning the split-node construction; frames <= 2x2 quick, <= 3x3 / 2x4 thorough.",
+         "reference translator; spec library; z3", "2/C10"),
 }
 NA = {
  "C18": "SegmentationBuilder2D is BFS/DFS over sets/dicts/deques driven by random: CrossHair did not complete a single path of a one-step harness on a 2x2 board in 10 CPU-minutes (measured, DESIGN 2/C18); a hand SMT model would not be the real code.",
